@@ -213,6 +213,8 @@ pub struct ACycle {
     pub now: i64,
     pub server: Vec<(AName, AResp)>,
     pub shipped: Option<ARoot>,
+    /// after a successful load: `read_target(name)` calls at the given clock offsets
+    pub reads: Vec<(i64, usize)>,
 }
 
 /// The names used by a case: role names and target names are small indices into these tables.
@@ -366,11 +368,13 @@ pub struct World<'a> {
     /// digest id -> a real 32-byte digest (for ids that were invented by the generator)
     invented: HashMap<u64, Vec<u8>>,
     bytes_cache: HashMap<String, Vec<u8>>,
+    /// target files served under the targets base URL in every cycle: (file name, content)
+    pub target_files: Vec<(String, Vec<u8>)>,
 }
 
 impl<'a> World<'a> {
     pub fn new(pool: &'a KeyPool, names: Names) -> Self {
-        World { pool: pool.all(), names, base: chrono::Utc::now(), digests: HashMap::new(), invented: HashMap::new(), bytes_cache: HashMap::new() }
+        World { pool: pool.all(), names, base: chrono::Utc::now(), digests: HashMap::new(), invented: HashMap::new(), bytes_cache: HashMap::new(), target_files: Vec::new() }
     }
 
     /// The identity of a real digest. Ids >= 1000 are handed out for real file contents.
@@ -505,6 +509,9 @@ impl<'a> World<'a> {
     /// Installs the server of one cycle into `mem`; returns the model JSON of the server.
     pub fn install(&mut self, mem: &Mem, server: &[(AName, AResp)], labels: &mut HashMap<String, String>) -> Value {
         mem.files.lock().unwrap().clear();
+        for (n, b) in &self.target_files {
+            mem.put(&format!("/t/{n}"), b.clone());
+        }
         let mut out = Vec::new();
         for (n, r) in server {
             let path = format!("/m/{}", name_path(n, &self.names));
@@ -667,12 +674,24 @@ pub async fn run_cycle(
     let ds = datastore_summary(datastore);
     match res {
         Ok(repo) => {
+            let mut read_obs = Vec::new();
+            for (now, t) in &cyc.reads {
+                let drift = (chrono::Utc::now() - world.base).num_nanoseconds().unwrap_or(0);
+                tough::verif_hooks::set_clock_offset(now * 1_000_000_000 - drift);
+                let name = tough::TargetName::new(world.names.targets[*t].clone()).expect("target name");
+                let r = match repo.read_target(&name).await {
+                    Ok(Some(_)) => "ok".to_string(),
+                    Ok(None) => "notfound".to_string(),
+                    Err(e) => err_tag(&e),
+                };
+                read_obs.push(json!(r));
+            }
             let mut roles = Vec::new();
             role_versions(&repo.targets().signed, &world.names, &mut roles);
             let obs = json!({"res": "ok",
                 "versions": [repo.root().signed.version.get(), repo.timestamp().signed.version.get(),
                              repo.snapshot().signed.version.get(), repo.targets().signed.version.get()],
-                "roles": roles, "reqs": reqs, "pulled": mem.pulled(), "ds": ds, "capped": mem.capped()});
+                "roles": roles, "reqs": reqs, "pulled": mem.pulled(), "ds": ds, "capped": mem.capped(), "reads": read_obs});
             CycleObs { obs, repo: Some(repo) }
         }
         Err(e) => CycleObs { obs: json!({"res": err_tag(&e), "reqs": reqs, "pulled": mem.pulled(), "ds": ds, "capped": mem.capped()}), repo: None },
@@ -683,7 +702,8 @@ pub fn cycle_model(world: &mut World<'_>, mem: &Mem, cyc: &ACycle, labels: &mut 
     let server = world.install(mem, &cyc.server, labels);
     json!({"cfg": {"limits": limits_model(&cyc.limits), "safe": cyc.safe, "now": cyc.now},
         "server": server,
-        "shipped": cyc.shipped.as_ref().map(|r| r.model()).unwrap_or(Value::Null)})
+        "shipped": cyc.shipped.as_ref().map(|r| r.model()).unwrap_or(Value::Null),
+        "reads": cyc.reads.iter().map(|(n, t)| json!({"now": n, "name": t})).collect::<Vec<_>>()})
 }
 
 /// Runs a history of update cycles on one datastore directory against the real client and returns
